@@ -251,8 +251,13 @@ func (w *world) timerInvariants() bool {
 		}
 		armed, when := vt.Armed()
 		if armed {
-			if !when.Equal(ti.ExpiryTime) {
-				return w.fail("timer-misarmed", fmt.Sprintf("template (%d,%d): timer armed for %ds, expiry is %ds", ti.ObsDomainID, ti.TemplateID, when.Unix()-t0.Unix(), ti.ExpiryTime.Unix()-t0.Unix()))
+			// armed for the deadline, or earlier (an implementation may let the timer fire at an older target and
+			// re-arm it then: the callback rules cover that); armed for later, the template would outlive its lifetime
+			if when.After(ti.ExpiryTime) {
+				return w.fail("timer-misarmed", fmt.Sprintf("template (%d,%d): timer armed for %ds, after the end of the lifetime at %ds", ti.ObsDomainID, ti.TemplateID, when.Unix()-t0.Unix(), ti.ExpiryTime.Unix()-t0.Unix()))
+			}
+			if when.Before(ti.ExpiryTime) {
+				w.c.Add("timers_armed_before_the_deadline", 1)
 			}
 		} else if !w.clk.InFlight(vt) {
 			return w.fail("no-expiry-pending", fmt.Sprintf("stored template (%d,%d) has neither an armed timer nor a callback in flight: it will never expire", ti.ObsDomainID, ti.TemplateID))
@@ -322,6 +327,24 @@ func (w *world) step(o op) (bool, bool) {
 		if o.j >= w.clk.NumPending() {
 			return false, true
 		}
+		if atomicCallbacks {
+			// this implementation reads the clock under the table lock: a callback cannot be held between
+			// its clock read and its end (see calibrate); it runs as one step
+			r := w.clk.Run(o.j)
+			if r == nil {
+				return false, true
+			}
+			if !r.Finished {
+				w.c.Inconclusive("callback did not return within the wall-clock watchdog")
+				return true, false
+			}
+			if ki, ok := w.timerKey[r.P.T.ID]; ok {
+				w.m.applyCallback(ki, r.P.Due)
+			}
+			w.c.Add("callbacks_started", 1)
+			w.c.Add("callbacks_completed", 1)
+			break
+		}
 		r := w.clk.Start(o.j)
 		if r == nil {
 			return false, true
@@ -350,28 +373,47 @@ func (w *world) step(o op) (bool, bool) {
 		}
 		w.c.Add("callbacks_completed", 1)
 	case "C":
-		rl := w.clk.RunningList()
-		if o.j >= len(rl) {
-			return false, true
+		var r *vclock.Running
+		var due time.Time
+		var tid int
+		if atomicCallbacks {
+			pl := w.clk.PendingList()
+			if o.j >= len(pl) {
+				return false, true
+			}
+			due, tid = pl[o.j].Due, pl[o.j].T.ID
+		} else {
+			rl := w.clk.RunningList()
+			if o.j >= len(rl) {
+				return false, true
+			}
+			r = rl[o.j]
+			due, tid = r.P.Due, r.P.T.ID
 		}
-		r := rl[o.j]
-		ki, known := w.timerKey[r.P.T.ID]
+		ki, known := w.timerKey[tid]
 		if !known {
 			return false, true
 		}
 		// two legal serialisations
 		mA := w.m.clone() // callback first
-		mA.applyCallback(ki, r.P.Due)
+		mA.applyCallback(ki, due)
 		accA := mA.applyOp(*o.sub)
 		mB := w.m.clone() // operation first
 		accB := mB.applyOp(*o.sub)
-		mB.applyCallback(ki, r.P.Due)
+		mB.applyCallback(ki, due)
 		if o.sub.kind == "B" {
 			accA, accB = mustNot, mustNot
 		}
 		msg := w.msgFor(*o.sub)
 		done := make(chan bool)
-		go func() { done <- w.clk.Finish(r) }()
+		go func() {
+			if atomicCallbacks {
+				rr := w.clk.Run(o.j)
+				done <- rr != nil && rr.Finished
+				return
+			}
+			done <- w.clk.Finish(r)
+		}()
 		_, derr, pv, st := w.dec.Decode(msg)
 		fin := <-done
 		if pv != nil {
@@ -494,6 +536,44 @@ func runSchedule(c *hx.Ctx, k int, r *rand.Rand, keys []key, ops []op) (pruned b
 	return false, w.overtake > 0
 }
 
+// atomicCallbacks: set by calibrate when the implementation's expiry callback reads the clock while it
+// holds the lock that templates and data need. Parking such a callback at its clock read (P1 without P2)
+// would block every other operation - a state the program cannot be in at rest - so P1 runs the whole
+// callback, P2 has nothing to finish (such words are pruned) and C starts the callback concurrently.
+var atomicCallbacks bool
+
+func calibrate(c *hx.Ctx) bool {
+	clk := vclock.New(t0)
+	dec, err := lib.NewDecoder("udp", collector.DecodingMode(mirror.Strict), ttlSec, lib.ClockAdapter{Clock: clk})
+	if err != nil {
+		panic(err)
+	}
+	defer dec.Close()
+	dec.Decode(tmplMsg(key{1, 300}, 0))
+	clk.Advance(ttl)
+	if clk.NumPending() == 0 {
+		return false
+	}
+	r := clk.Start(0)
+	if r == nil || r.Finished {
+		if r != nil {
+			clk.Finish(r)
+		}
+		return false
+	}
+	done := make(chan struct{})
+	go func() { dec.Decode(tmplMsg(key{1, 301}, 0)); close(done) }()
+	blocked := false
+	select {
+	case <-done:
+	case <-time.After(3 * time.Second):
+		blocked = true
+	}
+	clk.Finish(r)
+	<-done
+	return blocked
+}
+
 func main() {
 	c := hx.New("C10")
 	defer c.Finish()
@@ -506,6 +586,11 @@ func main() {
 	keys2 := []key{{1, 300}, {1, 301}}
 	keys3 := []key{{1, 300}, {1, 301}, {2, 300}}
 	keys4 := []key{{1, 300}, {1, 301}, {2, 300}, {2, 301}} // 2 ids x 2 domains
+	if atomicCallbacks = calibrate(c); atomicCallbacks {
+		c.Note("callback_placement", "the expiry callback reads the clock while holding the table lock: P1 runs the whole callback, words with P2 are pruned, C(j,op) starts callback j concurrently with op")
+	} else {
+		c.Note("callback_placement", "a fired callback can be held between its clock read and its end (P1 .. P2), with other operations in between")
+	}
 	alpha := func(nk int) []op {
 		var a []op
 		for ki := 0; ki < nk; ki++ {
